@@ -24,6 +24,11 @@ impl Canon for bool {
         self.to_string()
     }
 }
+impl Canon for darling::util::Flag {
+    fn canon(&self) -> String {
+        format!("Flag({})", self.is_present())
+    }
+}
 impl Canon for u8 {
     fn canon(&self) -> String {
         self.to_string()
@@ -123,6 +128,7 @@ macro_rules! all_values {
         inst!($out, $kk, $kt, "String", String);
         inst!($out, $kk, $kt, "Expr", syn::Expr);
         inst!($out, $kk, $kt, "Map", HashMap<String, String>);
+        inst!($out, $kk, $kt, "Flag", darling::util::Flag);
     };
     (btree $out:ident, $kk:expr, $kt:ty) => {
         inst!(btree $out, $kk, $kt, "bool", bool);
@@ -130,6 +136,7 @@ macro_rules! all_values {
         inst!(btree $out, $kk, $kt, "String", String);
         inst!(btree $out, $kk, $kt, "Expr", syn::Expr);
         inst!(btree $out, $kk, $kt, "Map", HashMap<String, String>);
+        inst!(btree $out, $kk, $kt, "Flag", darling::util::Flag);
     };
 }
 
@@ -524,7 +531,7 @@ pub fn run(args: &Args) -> i32 {
 fn outcome(min: u64) -> Outcome {
     Outcome {
         level: "exploration",
-        rule: if SPANS_ONLY.load(std::sync::atomic::Ordering::Relaxed) { "C03 part: the same item lists and 25 map instantiations as C14; judged here: every error leaf about an item of the list (repeated key, unconvertible key, unconvertible value) carries an explicit span inside that very item; so does the leaf for a bare literal item. Distinct = as in C14.".to_string() } else { "random item lists (0..12 items, key alphabets of 1..4 names with ::-leading / multi-segment / raw spellings, literal items, 14 value forms) parsed from source text and converted by all 25 map instantiations (HashMap x {String, Ident, Path} keys, BTreeMap x {String, Ident} keys, values bool / u8 / String / Expr / nested map); success, entries, leaf count and per-item leaf attribution (by span) are compared with a model whose key conversion is re-implemented and whose value acceptance is V::from_meta on the same item; Hash/BTree agreement checked per input. Distinct = (instantiation, length bucket, #literals, #repeats, #bad keys, #bad values, outcome).".to_string() },
+        rule: if SPANS_ONLY.load(std::sync::atomic::Ordering::Relaxed) { "C03 part: the same item lists and 30 map instantiations as C14; judged here: every error leaf about an item of the list (repeated key, unconvertible key, unconvertible value) carries an explicit span inside that very item; so does the leaf for a bare literal item. Distinct = as in C14.".to_string() } else { "random item lists (0..12 items, key alphabets of 1..4 names with ::-leading / multi-segment / raw spellings, literal items, 14 value forms) parsed from source text and converted by all 30 map instantiations (HashMap x {String, Ident, Path} keys, BTreeMap x {String, Ident} keys, values bool / u8 / String / Expr / nested map / Flag); success, entries, leaf count and per-item leaf attribution (by span) are compared with a model whose key conversion is re-implemented and whose value acceptance is V::from_meta on the same item; Hash/BTree agreement checked per input. Distinct = (instantiation, length bucket, #literals, #repeats, #bad keys, #bad values, outcome).".to_string() },
         assumptions: vec!["V::from_meta on the same item is the reference for value acceptance (the scalar conversions themselves are C11/C13's subject)".into()],
         min_nontrivial: min,
         exhaustive: None,
